@@ -13,15 +13,21 @@ def resolved_atoms(st):
     out = []
     for i in range(len(st["pos"])):
         t = st["typ"][i]
-        out.append(dict(pos=tuple(st["pos"][i]), chg=st["chg"][i], grp=st["grp"][i], lab=st["t_lab"][t], el=st["t_el"][t],
-                        mass=st["t_mass"][t], pair=(st["t_pair"][t] if st["t_pair"] else None), typ=t,
+        def tab(name):
+            return st[name][t] if 0 <= t < len(st[name]) else "<type id %d has no %s entry>" % (t, name)
+        out.append(dict(pos=tuple(st["pos"][i]), chg=st["chg"][i], grp=st["grp"][i], lab=tab("t_lab"), el=tab("t_el"),
+                        mass=tab("t_mass"), pair=(tab("t_pair") if st["t_pair"] else None), typ=t,
                         xf=dict(zip(st["xl"], st["xf"][i]))))
     return out
 
 
 def resolved_terms(st, k):
     kk = st[k]
-    return [dict(tup=tuple(t), coef=(kk["coef"][ty] if kk["coef"] else None), typ=ty, xf=dict(zip(kk["xl"], x)))
+    def text(ty):
+        if not kk["coef"]:
+            return None
+        return kk["coef"][ty] if 0 <= ty < len(kk["coef"]) else "<type id %d has no coefficient entry>" % ty
+    return [dict(tup=tuple(t), coef=text(ty), typ=ty, xf=dict(zip(kk["xl"], x)))
             for t, ty, x in zip(kk["tup"], kk["typ"], kk["xf"])]
 
 
@@ -178,6 +184,25 @@ def main(tier, seed, replay=None):
                 m = list(zip(run.rng.sample(range(no), r), run.rng.sample(range(ns), r)))
                 # make some fragment terms coincide (forwards / reversed / permuted) with existing ones through the map
                 cases.append((base, [("extend", frag, m)], "random-pair"))
+            # targeted: the fragment carries impropers and the structure has other numbers of dihedral types than improper types
+            for coeffs in (True, False):
+                for rep in range(3):
+                    base = tagged(run.rng, 5, "s", coeffs, cell=CELL, rich=True, max_terms=2)
+                    frag = tagged(run.rng, 4, "f", coeffs, rich=True, max_terms=2)
+                    nd, ni = [(1, 3), (3, 1), (2, 4)][rep]
+                    for kn, cnt in (("dihedrals", nd), ("impropers", ni)):
+                        kk = base[kn]
+                        kk["tup"] = [tuple(run.rng.sample(range(5), 4)) for _ in range(cnt)]
+                        kk["tup"] = list(dict.fromkeys(kk["tup"]))
+                        kk["typ"] = list(range(len(kk["tup"])))
+                        kk["xf"] = [["ts%s%d" % (kn[0], j)] + ["q"] * (len(kk["xl"]) - 1) for j in range(len(kk["tup"]))]
+                        kk["coef"] = ["s%s%d #c" % (kn[0], j) for j in range(cnt)] if coeffs else []
+                    frag["impropers"]["tup"] = [(0, 1, 2, 3), (1, 0, 3, 2)]
+                    frag["impropers"]["typ"] = [0, 1]
+                    frag["impropers"]["xf"] = [["tfi%d" % j] + ["q"] * (len(frag["impropers"]["xl"]) - 1) for j in range(2)]
+                    frag["impropers"]["coef"] = ["fi0 #c", "fi1 #c"] if coeffs else []
+                    cases.append((base, [("extend", frag, [])], "impropers-with-unequal-type-counts"))
+                    cases.append((base, [("extend", frag, [(0, 2)])], "impropers-with-unequal-type-counts"))
             # targeted: same atom set in a different, non-reversed order must NOT be superseded
             for coeffs in (True, False):
                 base = tagged(run.rng, 4, "s", coeffs, cell=CELL, rich=True, max_terms=1)
